@@ -16,16 +16,66 @@ META = {
 }
 
 FAMS = ["const"]
-PAR = 8
+PAR = 8          # parallel TLC processes for Gen and for the judge
 
 # Defects of scriggo demonstrated by this check on the unchanged tree (each reproduced by hand and confirmed
 # by the oracle guard: go/types agrees with the reference).  Signatures are computed by Trace_Const.Sig.
-PROPOSED_KNOWN = []
+PROPOSED_KNOWN = [
+    {"kind": "known", "signature": {"fam": "const", "xf64": 1},
+     "what": "constant.go parseBasicLiteral: a float literal with a short mantissa whose exponent is outside float64's range (0x1p1024, 0x1p-1075, 0x3p-1075) is converted through float64 (+Inf / 0 / rounded subnormal): wrong values, invalid constants accepted (float64(7) < 0x1p1024, int(0x1p-1075)), and a host panic from math/big (0x1p1024 / 0x1p1024, 0x1p1024 * 1i)"},
+    {"kind": "known", "signature": {"fam": "const", "fail": "value", "root": "mul", "oc": "complex", "xf64": 0},
+     "what": "constant.go complexConst.binaryOp: imaginary part of a complex product computed as bc-ad instead of bc+ad ((1+2i)*(3+4i) = -5+2i, 7*1i = -7i)"},
+    {"kind": "known", "signature": {"fam": "const", "fail": "value", "root": "quo", "typed": 1, "xf64": 0},
+     "what": "typed float/complex constants with integral values are kept as int64Const, so / is integer division (float64(7)/float64(2) == 3, complex128(1+1i)/complex128(2) == 0)"},
+    {"kind": "known", "signature": {"fam": "const", "fail": "accepts-invalid", "opk": "intonly", "oc": "float", "typed": 1},
+     "what": "checker binaryOp on two constants never consults operatorsOfKind: % & | ^ &^ accepted on typed float constants with integral values (float64(7) % 2)"},
+    {"kind": "known", "signature": {"fam": "const", "fail": "accepts-invalid", "opk": "intonly", "oc": "complex", "typed": 1},
+     "what": "checker binaryOp on two constants never consults operatorsOfKind: % accepted on typed complex constants (complex128(2) % complex128(2))"},
+    {"kind": "known", "signature": {"fam": "const", "fail": "accepts-invalid", "opk": "order", "oc": "complex", "typed": 1},
+     "what": "checker binaryOp on two constants never consults operatorsOfKind: < <= > >= accepted on typed complex constants (complex64(1) < complex64(2))"},
+    {"kind": "known", "signature": {"fam": "const", "fail": "value", "root": "conv", "to": "float", "xf64": 0},
+     "what": "representedBy(float64) returns an integer-valued constant unrounded: float64(9223372036854775807) != 9223372036854775808.0, float64(1<<53+1) keeps 54 bits"},
+    {"kind": "known", "signature": {"fam": "const", "fail": "value", "root": "conv", "to": "complex", "xf64": 0},
+     "what": "representedBy(complex128) returns an integer-valued constant unrounded (same cause as float64(9223372036854775807))"},
+    {"kind": "known", "signature": {"fam": "const", "fail": "rejects-valid", "root": "neq", "oc": "complex"},
+     "what": "complexConst.binaryOp implements == but not !=: 1i != 2i is rejected (operator != not defined on complex128)"},
+    {"kind": "known", "signature": {"fam": "const", "fail": "rejects-valid", "root": "conv", "to": "uint", "xf64": 0},
+     "what": "float64Const.representedBy(unsigned) tests float64(int64(f)) == f, which fails for 2^63 <= f < 2^64: uint64(9223372036854775808.0) is rejected as truncated"},
+    {"kind": "known", "signature": {"fam": "const", "fail": "type", "opk": "shift", "ka": "u.float"},
+     "what": "constant shift with an untyped float left operand yields an untyped float (Go: untyped int): 1.0 << 3 has default type float64, (1.0<<3)/16 == 0.5"},
+    {"kind": "known", "signature": {"fam": "const", "fail": "value-unusable", "opk": "shift", "ka": "u.complex"},
+     "what": "constant shift with an untyped complex left operand (0i << 1) yields an integer constant typed untyped complex; using it (var v int64 = c) panics in reflect.Value.Convert inside the compiler"},
+    {"kind": "known", "signature": {"fam": "const", "fail": "accepts-invalid", "root": "cpl", "ka": "u.int"},
+     "what": "unary ^ on an untyped integer constant is not checked against the 512-bit limit (^(1<<512-1) accepted; gc: constant bitwise complement overflow)"},
+]
 
 
 def _consts(ctx, mode, shard=0, nshards=1):
-    return {"Mode": mode, "W": 8, "Tier": ctx.pick(1, 2), "Seed": ctx.seed % 10007, "Shard": shard,
+    return {"Mode": mode, "W": ctx.pick(6, 8), "Tier": ctx.pick(1, 2), "Seed": ctx.seed % 10007, "Shard": shard,
             "NShards": nshards, "N2": ctx.pick(0, 3000)}
+
+
+class one_cpu_jvm:
+    """Most TLC runs here are single-threaded evaluations started in parallel: keep each JVM from starting one
+    JIT/GC thread per core (measured: 13 s -> 3-6 s of CPU per TLC start on this 16-core machine).  Re-entrant."""
+    _depth, _old = 0, None
+    _lock = __import__("threading").Lock()
+
+    def __enter__(self):
+        with one_cpu_jvm._lock:
+            if one_cpu_jvm._depth == 0:
+                one_cpu_jvm._old = os.environ.get("JAVA_TOOL_OPTIONS")
+                os.environ["JAVA_TOOL_OPTIONS"] = "-XX:CICompilerCount=2 -XX:ParallelGCThreads=2"
+            one_cpu_jvm._depth += 1
+
+    def __exit__(self, *a):
+        with one_cpu_jvm._lock:
+            one_cpu_jvm._depth -= 1
+            if one_cpu_jvm._depth == 0:
+                if one_cpu_jvm._old is None:
+                    os.environ.pop("JAVA_TOOL_OPTIONS", None)
+                else:
+                    os.environ["JAVA_TOOL_OPTIONS"] = one_cpu_jvm._old
 
 
 def _gen_shard(ctx, k, n):
@@ -59,7 +109,7 @@ def judge(ctx, step, recs, par=PAR):
         return [], {"records": 0, "nbad": 0, "ref_undefined": 0, "reason_class_drift": 0}
     par = max(1, min(par, (len(recs) + 199) // 200))
     parts = [recs[i::par] for i in range(par)]
-    with ThreadPoolExecutor(par) as ex:
+    with one_cpu_jvm(), ThreadPoolExecutor(par) as ex:
         res = list(ex.map(lambda a: _judge_shard(ctx, f"{step}_{a[0]}", a[1]), enumerate(parts)))
     bads, stats = [], {"records": 0, "nbad": 0, "ref_undefined": 0, "reason_class_drift": 0}
     for b, s in res:
@@ -84,41 +134,57 @@ def show(o):
 
 def same_outcome(a, b):
     """scriggo observation vs oracle observation of the same programs"""
-    return ((a["builds"] == "ok") == (b["builds"] == "ok") and a["eq"] == b["eq"] and a["hasv"] == b["hasv"]
+    return (a["builds"] == b["builds"] and a["eq"] == b["eq"] and a["hasv"] == b["hasv"]
             and a["v"] == b["v"] and a["dtobs"] == b["dtobs"]
             and (a["builds"] != "ok" or (a["chk"] == "ran") == (b["chk"] == "ran")))
 
 
-def run(ctx, replay_ids=None):
-    # 0. BigInt self-test against TLC's native integers
-    wd = ctx.stage("mcbig", FAMS)
+def _mcbig(ctx):
+    """BigInt self-test against TLC's native integers"""
     invs = ["WellFormed", "AddOk", "CmpOk", "MulOk", "MulSmallOk", "QuoRemOk", "DivSmallOk", "WrapOk", "ShiftOk",
             "BitLenOk", "BitOpsOk", "Pow2Ok", "BigIdentities"]
-    if replay_ids is None:
-        rig.write_cfg(wd / "MC_BigInt.cfg", constants={"R": ctx.pick(12, 300)}, invariants=invs)
-        rb = ctx.tlc(wd, "MC_BigInt", workers=rig.NCPU, timeout=1500, must_pass=True)
-        ctx.cov["bigint_selftest"] = {"pairs": rb.distinct, "wall_s": round(rb.wall, 1), "invariants": invs,
-                                      "R": ctx.pick(12, 300)}
-    # 1. model check of the implementation-shaped int64 fast path against the reference, all pairs at width 8
-    mc_invs = ["ImplMeetsRef", "PromotesIffOverflow"]
+    wd = ctx.stage("mcbig", FAMS)
+    R = ctx.pick(4, 300)
+    rig.write_cfg(wd / "MC_BigInt.cfg", constants={"R": R}, invariants=invs)
+    rb = ctx.tlc(wd, "MC_BigInt", workers=ctx.pick(4, rig.NCPU), timeout=1500, must_pass=True)
+    return {"pairs": rb.distinct, "wall_s": round(rb.wall, 1), "invariants": invs, "R": R}
+
+
+MC_INVS = ["ImplMeetsRef", "MinIntQuoWraps", "PromotesIffOverflow"]
+
+
+def _mc(ctx):
+    """model check of the implementation-shaped int64 fast path against the reference, all operand pairs at width W"""
+    wd = ctx.stage("mc", FAMS)
+    c = _consts(ctx, "mc")
+    rig.write_cfg(wd / "MC_Const.cfg", constants=c, invariants=MC_INVS)
+    r = ctx.tlc(wd, "MC_Const", workers=ctx.pick(4, rig.NCPU), timeout=1500, coverage=not ctx.quick, extra=["-continue"])
+    if not r.ok and not r.invariant_violated:
+        raise Infra(f"MC_Const failed: {wd}/MC_Const.out\n" + rig.tail(r.out, 30))
+    return r, wd, c["W"]
+
+
+def run(ctx, replay_ids=None):
+    # 0-2. concurrently: BigInt self-test; model check of the fast path; Gen of the test space (parallel shards)
     model_findings = []
-    if replay_ids is None:
-        wd = ctx.stage("mc", FAMS)
-        rig.write_cfg(wd / "MC_Const.cfg", constants=_consts(ctx, "mc"), invariants=mc_invs)
-        r = ctx.tlc(wd, "MC_Const", workers=rig.NCPU, timeout=1500, coverage=not ctx.quick, extra=["-continue"])
-        ctx.cov.update(states=r.distinct, transitions=r.generated, mc_wall_s=round(r.wall, 1), mc_invariants=mc_invs,
-                       bounds="fast path: width 8, all operand pairs, ops + - * / % neg ^; cases: Tier %d" % ctx.pick(1, 2))
-        if r.invariant_violated:
-            model_findings = sorted(set(r.invariant_violated))
-            ctx.cov["model_counterexample"] = {"invariants": model_findings, "tlc_out": str(wd / "MC_Const.out"),
-                                               "first": rig.tail(r.out[:r.out.find("Error: Invariant") + 900], 12) if "Error: Invariant" in r.out else ""}
-        elif not r.ok:
-            raise Infra(f"MC_Const failed: {wd}/MC_Const.out\n" + rig.tail(r.out, 30))
-        if not ctx.quick:
-            ctx.cov["actions_never_taken"] = r.coverage_zero()
-    # 2. Gen: the test space with reference verdicts, in parallel shards
-    with ThreadPoolExecutor(PAR) as ex:
+    with one_cpu_jvm(), ThreadPoolExecutor(PAR + 2) as ex:
+        fb = ex.submit(_mcbig, ctx) if replay_ids is None else None
+        fm = ex.submit(_mc, ctx) if replay_ids is None else None
         shards = list(ex.map(lambda k: _gen_shard(ctx, k, PAR), range(PAR)))
+        if fb:
+            ctx.cov["bigint_selftest"] = fb.result()
+        if fm:
+            r, wd, W = fm.result()
+            ctx.cov.update(states=r.distinct, transitions=r.generated, mc_wall_s=round(r.wall, 1), mc_invariants=MC_INVS,
+                           bounds="fast path: width %d, all operand pairs, ops + - * / %% neg ^signed ^unsigned; cases: Tier %d"
+                                  % (W, ctx.pick(1, 2)))
+            if r.invariant_violated:
+                model_findings = sorted(set(r.invariant_violated))
+                k = r.out.find("Error: Invariant")
+                ctx.cov["model_counterexample"] = {"invariants": model_findings, "tlc_out": str(wd / "MC_Const.out"),
+                                                   "first": r.out[k:k + 700]}
+            if not ctx.quick:
+                ctx.cov["actions_never_taken"] = r.coverage_zero()
     cases = sorted((c for s in shards for c in s), key=lambda c: c["id"])
     ctx.cov["cases_exported"] = len(cases)
     if replay_ids is not None:
@@ -143,16 +209,27 @@ def run(ctx, replay_ids=None):
                    exhaustive=True,
                    reference_verdicts={k: sum(1 for c in cases if c["rst"] == k) for k in ("ok", "rej", "any")},
                    samples=[show(o) for o in rig.pick_samples(allobs, 4, ctx.seed)])
-    # 4. judge (TLC, parallel shards)
-    bads, stats = judge(ctx, "trace", allobs)
+    # 4. judge (TLC, parallel shards); concurrently the sensitivity self-test: corrupted observations must be
+    #    rejected by the same Trace spec
+    with ThreadPoolExecutor(2) as ex2:
+        fst = None
+        if replay_ids is None:
+            st = selftest(allobs, ctx.seed)
+            fst = ex2.submit(judge, ctx, "trace_selftest", st, 1)
+        bads, stats = judge(ctx, "trace", allobs)
+        if fst:
+            b3, _ = fst.result()
+            ctx.cov["sensitivity_selftest"] = {"corrupted": len(st), "rejected": len({b["id"] for b in b3})}
+            if len({b["id"] for b in b3}) < len(st):
+                raise Infra("sensitivity self-test failed: %d corrupted observations, %d rejected" % (len(st), len(b3)))
     ctx.cov["judged_bad_first_pass"] = stats["nbad"]
     ctx.cov["ref_undefined"] = stats["ref_undefined"]
     ctx.cov["reason_class_drift"] = stats["reason_class_drift"]
     if stats["records"] != len(allobs):
         raise Infra("Trace_Const consumed %d of %d records" % (stats["records"], len(allobs)))
-    if any(b["sig"]["fail"] == "binding" for b in bads):
+    if any(b["bound"] != 1 for b in bads):
         raise Infra("observation not bound to its expression (src/reflit/vt/dt differ from the reference's): ids %s"
-                    % [b["id"] for b in bads if b["sig"]["fail"] == "binding"][:5])
+                    % [b["id"] for b in bads if b["bound"] != 1][:5])
     # 5. reproduction guard (fresh process) + oracle guard (go/types + go/constant, only on rejected records)
     confirmed, disputed = [], []
     if bads:
@@ -178,14 +255,7 @@ def run(ctx, replay_ids=None):
         ctx.cov["oracle_disputed"] = len(disputed)
         if disputed:
             ctx.cov["oracle_disputed_samples"] = disputed[:5]
-    # 6. sensitivity self-test: corrupted observations must be rejected by the same Trace spec
-    if replay_ids is None:
-        st = selftest(allobs, ctx.seed)
-        b3, _ = judge(ctx, "trace_selftest", st, par=1)
-        ctx.cov["sensitivity_selftest"] = {"corrupted": len(st), "rejected": len({b["id"] for b in b3})}
-        if len({b["id"] for b in b3}) < len(st):
-            raise Infra("sensitivity self-test failed: %d corrupted observations, %d rejected" % (len(st), len(b3)))
-    # 7. verdict
+    # 6. verdict
     def rw(rdir, b):
         (rdir / "case.json").write_text(json.dumps(case_from_obs(b["obs"])))
         (rdir / "obs.json").write_text(json.dumps(b["obs"]))
